@@ -19,8 +19,12 @@
 
 from collections import namedtuple
 from functools import partial
-from multiprocessing import Pool
+from multiprocessing import (
+    Pool,
+    current_process,
+)
 from multiprocessing.context import TimeoutError as MPTimeoutError
+from multiprocessing.pool import ThreadPool
 from warnings import (
     catch_warnings,
     filterwarnings,
@@ -218,7 +222,10 @@ def _use_cnls(
         prog.set_message("Performing tests")
 
     fits: List[Tuple[int, Circuit]] = []
-    with Pool(num_procs) as pool:
+    # Daemonic processes (e.g., the workers used when evaluating several
+    # log_F_ext values in parallel) are not allowed to have child processes.
+    pool_class = ThreadPool if current_process().daemon else Pool
+    with pool_class(num_procs) as pool:
         threshold: Optional[float] = None
         log_sum_abs_tau_var: Dict[int, float] = {}
         max_count: int = 5
